@@ -3,6 +3,7 @@ C17 — tower size vs stage: refuse when too small, add covers when larger.
 -/
 import Wheatley.Props.C06
 import Wheatley.Lemmas.StartRow
+import Wheatley.Model.Rhythm
 namespace Wheatley.C17
 open Wheatley.C06
 
@@ -157,5 +158,21 @@ example :
                       tower := { Tower.empty with bellState := List.replicate 8 true }, openingRow := rounds 8 }
     let b5 : Bot := { b8 with tower := { Tower.empty with bellState := List.replicate 5 true }, openingRow := rounds 5 }
     Gate b8 ∧ ¬ Gate b5 := by decide
+
+section RhythmSize
+variable {K : Type} [Num K]
+
+
+/-- **The rhythm follows the tower size**: Look To re-initialises the line with the size it is given -
+stage and blow interval are those of the new tower, whoever leads and whatever was rung before. -/
+theorem rhythm_follows_tower_size (r : Reg K) (stage : Nat) :
+    (r.resetForTouch stage).stage = stage ∧
+    (r.resetForTouch stage).interval = Generated.pealSpeedToBlowInterval r.pealSpeed stage ∧
+    ∀ (reg : List (K × K × K) → K × K) (t : K), (r.initialiseLine reg stage true t).stage = stage ∧
+      (r.initialiseLine reg stage true t).interval = Generated.pealSpeedToBlowInterval r.pealSpeed stage := by
+  refine ⟨rfl, rfl, fun reg t => ?_⟩
+  simp [Reg.initialiseLine, Reg.resetForTouch]
+
+end RhythmSize
 
 end Wheatley.C17
